@@ -31,6 +31,26 @@ CHECKS = {
             "Every blob length 0..=1030 (thorough 0..=4100 x 4 positions) enumerated plus randomised programs mixing blobs, images and clouds; byte-exact oracle.",
             "Trusted: e57ref page-layer unpaging for the perturbed-descriptor oracle.",
             "DESIGN.md section 5 C06"),
+    "C05": ("exploration",
+            "property-based testing: generated files (own writer + independent encoder) x all 64 option vectors, oracle = reference model of the documented simple-point function over the raw values",
+            "Randomised exploration of files and exhaustive enumeration of the 2^6 option vectors per file; every delivered point is compared with an independently written model of the documented function.",
+            "Trusted: the reference model's reading of the rustdoc; aspects the documentation leaves open are accepted in both readings (listed in evidence.assumptions).",
+            "DESIGN.md section 5 C05"),
+    "C11": ("exploration",
+            "model-based (stateful) property testing: exhaustive operation histories to depth 4/5 over a 20-letter alphabet plus random histories, byte-vector reference model checked after every step",
+            "Small-scope exhaustive core (all 20^4 writer histories, thorough 20^5) plus random histories up to 40 steps against a byte-vector model of the logical stream; reader histories over the resulting files.",
+            "Trusted: the byte-vector model; the cfg(e57_verif) hook re-exports the page layer unchanged.",
+            "DESIGN.md section 5 C11"),
+    "C12": ("exploration",
+            "enumerated grid + property-based testing: differential against a naive bit-by-bit codec in both directions (reader decodes e57ref-encoded streams at every cut position; writer streams compared bit for bit)",
+            "Exhaustive grid over widths 0..64 x range variants x value sets x every cut position (reader direction) and widths x capacity boundary point counts (writer direction), plus random programs.",
+            "Trusted: e57ref's naive bit codec (one bit at a time, LSB first).",
+            "DESIGN.md section 5 C12"),
+    "C13": ("exploration",
+            "property-based testing: generated attribute types x limit settings x sorted stored values, oracle = overflow-free reference formula, range/monotonicity/endpoint invariants",
+            "Randomised exploration of data types, limit settings (absent, partial, equal, mismatched, extreme) and boundary values with an independent reference formula.",
+            "Trusted: the reference formula; NaN and inverted limits are outside the stated settings.",
+            "DESIGN.md section 5 C13"),
     "C14": ("exploration",
             "property-based testing: generated prototypes/points, bounds recomputed independently from the generated points, limits from the declared ranges",
             "Randomised exploration of attribute-group subsets, data types and point sequences; bounds and limits are recomputed by an independent model and compared numerically.",
